@@ -288,6 +288,11 @@ func (s *Service) updateConfig(ctx context.Context, instance *Instance, plugin s
 	if plugin == "" {
 		return nil, cerrors.Errorf("could not update processor instance (ID: %s): plugin name is empty", instance.ID)
 	}
+	// Same rules as Create, so that an updated processor can be re-created
+	// when a later delete has to be rolled back.
+	if cfg.Workers < 0 {
+		return nil, cerrors.Errorf("could not update processor instance (ID: %s): processor workers can't be negative", instance.ID)
+	}
 
 	if instance.Plugin != plugin {
 		s.logger.Warn(ctx).Msgf("processor plugin changing from %v to %v, "+
